@@ -273,6 +273,8 @@ pub enum EventKind {
     Spawn { tid: i32 },
     /// every memory-map line with this name disappears (dlclose / munmap)
     UnmapNamed { name: B },
+    /// another process attaches to (or detaches from) this thread with ptrace
+    ForeignTracer { tid: i32, on: bool },
 }
 
 #[derive(Serialize, Deserialize, Clone, Debug, PartialEq)]
